@@ -32,7 +32,8 @@ DecFlag(x) == CASE x = "UseInt64" -> "OptionUseInt64" [] x = "UseNumber" -> "Opt
 Froze(c) == [enc |-> {EncFlag(x) : x \in c} \ {""}, dec |-> {DecFlag(x) : x \in c} \ {""}]
 
 \* ---- probes and effects ----
-EncProbes == {"plain_struct", "str_html", "map3", "mjws", "mtn", "nil_slice", "nil_map", "nan", "str_badutf8", "mjbad", "stream"}
+EncProbes == {"plain_struct", "str_html", "map3", "mjws", "mtn", "nil_slice", "nil_map", "nan", "str_badutf8", "mjbad", "stream",
+              "stream_indent"}    \* the stream encoder after SetIndent: another code path writes the newline
 \* the same encoder probes as the value of a field on the second level of a recursive type, and four structs deep: the option word
 \* has to survive the recursive call of a codec program and the calls of nested programs
 RecProbes == {"rec:plain_struct", "rec:str_html", "rec:map3", "rec:mjws", "rec:mtn", "rec:nil_slice", "rec:nil_map", "rec:nan", "rec:str_badutf8", "rec:mjbad",
@@ -51,7 +52,7 @@ Sensitive(x) == CASE x = "EscapeHTML" -> {"str_html"}
                   [] x = "EncodeNullForInfOrNan" -> {"nan"}
                   [] x = "ValidateString" -> {"str_badutf8", "doc_ctl", "doc_badutf8"}
                   [] x = "NoValidateJSONMarshaler" -> {"mjbad"}
-                  [] x = "NoEncoderNewline" -> {"stream"}
+                  [] x = "NoEncoderNewline" -> {"stream", "stream_indent"}
                   [] x = "UseNumber" -> {"doc_num_iface"}
                   [] x = "UseInt64" -> {"doc_num_iface"}
                   [] x = "UseUnicodeErrors" -> {"doc_surrogate"}
